@@ -367,14 +367,21 @@ void
 vbi_send_event(vbi_decoder *vbi, vbi_event *ev)
 {
 	struct event_handler *eh;
+	vbi_event e;
 
 	pthread_mutex_lock(&vbi->event_mutex);
+
+	/* Deliver a copy: a handler may call vbi_event_handler_register()
+	   which can reset the decoder state this event lives in
+	   (vbi->network), and the remaining handlers must still
+	   receive the event as it was raised. */
+	e = *ev;
 
 	for (eh = vbi->handlers; eh; eh = vbi->next_handler) {
 		vbi->next_handler = eh->next;
 
-		if (eh->event_mask & ev->type)
-			eh->handler(ev, eh->user_data);
+		if (eh->event_mask & e.type)
+			eh->handler(&e, eh->user_data);
 	}
 
 	pthread_mutex_unlock(&vbi->event_mutex);
